@@ -177,7 +177,18 @@ fn mon_c01(snap: &Snap, armed: &mut BTreeMap<String, u64>) -> Vec<(String, Strin
             out.push(("C01:served-twice".to_string(), format!("connection {c} reached {} service calls", info.calls)));
         }
         let any_worker_alive = snap.workers.iter().any(|w| w.view.is_some());
-        if info.eof && info.calls == 0 && !snap.stop_requested() && any_worker_alive && snap.server_done.is_none() {
+        // a connection that sat in the queue of a worker that then died is lost with that worker
+        let lost_with_its_worker = {
+            let last_dispatch = snap.log.iter().rposition(|(_, _, r)| matches!(r, Rec::Dispatch { conn: Some(x), .. } if *x == c));
+            match last_dispatch {
+                Some(p) => {
+                    let idx = if let Rec::Dispatch { worker, .. } = &snap.log[p].2 { *worker } else { usize::MAX };
+                    snap.log[p..].iter().any(|(_, _, r)| matches!(r, Rec::WorkerGone { slot } if snap.workers.get(*slot).map(|w| w.idx) == Some(idx)))
+                }
+                None => false,
+            }
+        };
+        if info.eof && info.calls == 0 && !snap.stop_requested() && any_worker_alive && snap.server_done.is_none() && !lost_with_its_worker {
             out.push((
                 "C01:discarded-while-running".to_string(),
                 format!("connection {c} (listener {}) was closed by the server without ever reaching a service call, while the server is running and a worker is alive (phase {:?})", info.listener, info.phase),
@@ -185,6 +196,18 @@ fn mon_c01(snap: &Snap, armed: &mut BTreeMap<String, u64>) -> Vec<(String, Strin
         }
         if snap.server_done.is_some() && snap.quiescent && matches!(info.phase, Phase::Queued(_)) && !info.eof {
             out.push(("C01:leaked-at-shutdown".to_string(), format!("server stopped, connection {c} was queued at a worker and is neither served nor closed")));
+        }
+    }
+    if snap.quiescent {
+        for w in &snap.workers {
+            if let Some(v) = &w.view {
+                if v.state == "shutdown" {
+                    *armed.entry("quiescent_states_with_a_worker_shutting_down".into()).or_insert(0) += 1;
+                    if v.queued > 0 {
+                        out.push(("C01:queued-connection-not-released-by-shutting-down-worker".to_string(), format!("quiescent: worker {} is shutting down and still holds {} queued connection(s) that are neither served nor closed", w.idx, v.queued)));
+                    }
+                }
+            }
         }
     }
     if services_called.len() >= 2 {
@@ -378,6 +401,13 @@ fn mon_c05(snap: &Snap, limit: usize, armed: &mut BTreeMap<String, u64>) -> Vec<
     for (l, reg) in snap.registered.iter().enumerate() {
         let deadline = a.socket_deadlines.get(l).copied().flatten();
         if !*reg {
+            if deadline == Some(Duration::ZERO) && !snap.accept_timer_expired {
+                out.push((
+                    "C05:back-off-deadline-passed-unnoticed".to_string(),
+                    format!("quiescent, running, not paused: the back-off deadline of listener {l} has passed, it is still not registered, and the accept poll's timeout ({:?}) is not due yet, so nothing will bring it back now", a.timeout),
+                ));
+                return out;
+            }
             if deadline.is_some() && a.timeout.is_some() {
                 *armed.entry("quiescent_states_with_a_listener_backing_off".into()).or_insert(0) += 1;
                 continue; // backing off, the timer will bring it back
@@ -818,7 +848,11 @@ fn specs_for(prop: &'static str, tier: Tier) -> Vec<SpecImpl> {
                 v.push(mk(cfg(1, &[Tcp], 2), Bounds { connects: 3, cmds: cmds.clone(), max_cmds: 1, nested: 0, ..Default::default() }));
                 v.push(mk(cfg(2, &[Tcp, Uds], 1), Bounds { connects: 3, connect_listeners: vec![0, 1], cmds: cmds.clone(), max_cmds: 1, ..Default::default() }));
                 v.push(mk(cfg(2, &[Uds, Uds], 2), Bounds { connects: 3, connect_listeners: vec![0, 1], nested: 1, ..Default::default() }));
+                // a worker dies: the connection that discovers it must still reach a live worker
+                v.push(mk(cfg(2, &[Uds], 1), Bounds { connects: 3, kills: 1, ..Default::default() }));
             } else {
+                v.push(mk(cfg(2, &[Uds], 1), Bounds { connects: 4, kills: 1, ..Default::default() }));
+                v.push(mk(cfg(3, &[Uds], 1), Bounds { connects: 4, kills: 1, ..Default::default() }));
                 for w in 1..=3 {
                     for ls in [vec![Uds], vec![Tcp, Uds], vec![Uds, Uds]] {
                         for l in 1..=2 {
@@ -849,6 +883,10 @@ fn specs_for(prop: &'static str, tier: Tier) -> Vec<SpecImpl> {
                     v.push(mk(cfg(1, &[k], 2), Bounds { connects: 2, cmds: cmds.clone(), max_cmds: 3, ..Default::default() }));
                     v.push(mk(cfg(1, &[k], 2), Bounds { connects: 2, injects: inj(0), max_injects: 1, advances: vec![510], max_advances: 2, cmds: cmds.clone(), max_cmds: 1, ..Default::default() }));
                 }
+                // back-off overlapping repeated pause/resume
+                v.push(mk(cfg(1, &[Uds], 2), Bounds { connects: 2, injects: vec![(0, ErrKind::Emfile)], max_injects: 1, cmds: cmds.clone(), max_cmds: 3, ..Default::default() }));
+                // back-off of one listener while the other keeps the accept loop busy; clock in steps below the back-off
+                v.push(mk(cfg(1, &[Uds, Uds], 2), Bounds { connects: 2, connect_listeners: vec![0, 1], injects: vec![(0, ErrKind::Emfile)], max_injects: 1, advances: vec![300], max_advances: 3, ..Default::default() }));
             } else {
                 let all = |l: usize| vec![(l, ErrKind::Emfile), (l, ErrKind::Enfile), (l, ErrKind::Aborted), (l, ErrKind::Reset), (l, ErrKind::Refused), (l, ErrKind::Interrupted)];
                 for k in [Uds, Tcp] {
@@ -870,6 +908,8 @@ fn specs_for(prop: &'static str, tier: Tier) -> Vec<SpecImpl> {
                 // stop racing new connections and late availability notifications
                 v.push(mk(cfg(2, &[Uds], 1), Bounds { connects: 3, cmds: vec![Ev::Stop(true)], max_cmds: 1, advances: vec![1000], max_advances: 1, ..Default::default() }));
                 v.push(mk(cfg(1, &[Tcp], 1), Bounds { connects: 2, cmds: vec![Ev::Pause, Ev::Stop(true), Ev::Stop(false)], max_cmds: 2, advances: vec![1000], max_advances: 3, ..Default::default() }));
+                // clock steps that are not multiples of the 1 s tick (ticks then fire late)
+                v.push(mk(cfg(1, &[Uds], 2), Bounds { connects: 1, cmds: vec![Ev::Stop(true)], max_cmds: 1, advances: vec![700, 1000], max_advances: 4, ..Default::default() }));
             } else {
                 let all = vec![Ev::Stop(true), Ev::Stop(false), Ev::Signal(2), Ev::Signal(15), Ev::Signal(3), Ev::Pause];
                 v.push(mk(cfg(1, &[Uds], 3), Bounds { connects: 3, cmds: all.clone(), max_cmds: 2, advances: vec![1000], max_advances: 4, drop_stop: true, ..Default::default() }));
@@ -895,6 +935,8 @@ fn specs_for(prop: &'static str, tier: Tier) -> Vec<SpecImpl> {
                 v.push(mk(cfg(1, &[Uds], 1), Bounds { connects: 3, kills: 1, ..Default::default() }));
                 v.push(mk(cfg(2, &[Uds], 1), Bounds { connects: 3, kills: 1, ..Default::default() }));
                 v.push(mk(cfg(2, &[Uds], 2), Bounds { connects: 3, kills: 1, ..Default::default() }));
+                // two faults in sequence (handle order is permuted by the first repair)
+                v.push(mk(cfg(2, &[Uds], 1), Bounds { connects: 2, kills: 2, completes: false, ..Default::default() }));
             } else {
                 for (w, l, n, k, nested) in [(1, 1, 4, 1, 1), (1, 2, 4, 2, 0), (2, 1, 4, 1, 1), (2, 2, 4, 2, 0), (3, 1, 4, 1, 0), (3, 1, 3, 2, 0), (3, 2, 4, 1, 0)] {
                     v.push(mk(cfg(w, &[Uds], l), Bounds { connects: n, kills: k, nested, ..Default::default() }));
